@@ -449,6 +449,26 @@ func Render(pr *Program, st Style) string {
 		p.line("}")
 		p.nl()
 	}
+	for _, c := range pr.Cmds {
+		h := "! " + c.Name
+		for i, q := range c.Params {
+			h += " "
+			if i < len(c.Flags) && c.Flags[i] {
+				h += "--"
+			}
+			h += q.Name + ": " + q.Type
+			if q.Required {
+				h += "!"
+			}
+			if q.Default != nil {
+				h += " = " + p.expr(q.Default, 0, false)
+			}
+		}
+		p.line(h + " {")
+		p.block(c.Body)
+		p.line("}")
+		p.nl()
+	}
 	for _, r := range pr.Routes {
 		h := "@ " + r.Method + " " + r.Path
 		if st.RouteKw {
